@@ -202,6 +202,21 @@ class Guards:
                     v = valuation[a.lstrip("!")]
                     return (not v) if a.startswith("!") else v
                 return None
+            if isinstance(e, ast.Compare) and len(e.ops) == 1 and isinstance(e.ops[0], (ast.Is, ast.IsNot)) and seen is not None \
+                    and isinstance(e.left, ast.Name) and isinstance(e.comparators[0], ast.Name):
+                # `x is SENTINEL` / `x is not SENTINEL` with SENTINEL a global: decided when every definition of x that can reach the
+                # test under the valuation is (a copy of) that very name, or none of them is
+                x, s_ = e.left, e.comparators[0]
+                nx, ns = node_of(x), node_of(s_)
+                if nx is not None and not rd.defs_reaching(ns if ns is not None else nx, s_.id) and rd.defs_reaching(nx, x.id):
+                    origins = self._origins(x, nx, seen, rd, 0)
+                    if origins is not None:
+                        same = [isinstance(o, ast.Name) and o.id == s_.id for o in origins]
+                        if all(same):
+                            return isinstance(e.ops[0], ast.Is)
+                        if not any(same) and all(not isinstance(o, ast.Name) for o in origins):
+                            return isinstance(e.ops[0], ast.IsNot)
+                return None
             if isinstance(e, ast.Name) and seen is not None and isinstance(e.ctx, ast.Load):
                 k = id(e)
                 if k in memo:
@@ -226,6 +241,29 @@ class Guards:
             return None
 
         return val
+
+    def _origins(self, x: ast.Name, at: int, seen: Set[int], rd, depth: int):
+        """the defining expressions of a local name reachable under the valuation (copies followed); None when not resolvable"""
+        if depth > 6:
+            return None
+        out = []
+        for d in rd.defs_reaching(at, x.id):
+            if d not in seen:
+                continue
+            st = self.g.stmt[d]
+            if d == self.g.entry or not isinstance(st, (ast.Assign, ast.AnnAssign)) or st.value is None:
+                return None
+            if isinstance(st, ast.Assign) and not (len(st.targets) == 1 and isinstance(st.targets[0], ast.Name)):
+                return None
+            v = st.value
+            if isinstance(v, ast.Name) and rd.defs_reaching(d, v.id):
+                sub = self._origins(v, d, seen, rd, depth + 1)
+                if sub is None:
+                    return None
+                out += sub
+            else:
+                out.append(v)
+        return out or None
 
     def _empty(self, it: ast.AST, at: int, val, seen: Set[int], depth: int = 0) -> bool:
         if depth > 4:
